@@ -538,6 +538,7 @@ func runC13Search(c *vk.Ctx) {
 			target.Add(target, big.NewInt(r.Range(-50, 50)))
 		}
 		iters := 1 + r.Intn(60)
+		fineFrac := new(big.Int)
 		if i%2 == 1 && r.Intn(4) == 0 {
 			// BigDec search driven down to the last decimals: a tolerance of a few 1e-18 (or none) and enough
 			// iterations to get there
@@ -548,6 +549,7 @@ func runC13Search(c *vk.Ctx) {
 			hi = int64(1) << uint(4+r.Intn(9))
 			target = fInt(big.NewInt(r.I64n(hi)))
 			iters = 100 + r.Intn(100)
+			fineFrac = r.BigBelow(e36) // a target off the dyadic grid, so that the search really has to close in
 		}
 		if i%2 == 0 {
 			calls := 0
@@ -581,7 +583,7 @@ func runC13Search(c *vk.Ctx) {
 					return x.MulInt64(a).TruncateDec()
 				}
 			}
-			tbd := osmomath.NewBigDecFromBigInt(target)
+			tbd := osmomath.NewBigDecFromBigIntWithPrec(new(big.Int).Add(new(big.Int).Mul(target, e36), fineFrac), 36)
 			got, err := osmomath.BinarySearchBigDec(fBD, osmomath.ZeroBigDec(), osmomath.NewBigDec(hi), tbd, et, iters)
 			if err == nil {
 				img := fBD(got)
